@@ -19,6 +19,83 @@ def _paths_fn(run: Run, qual: str, no_inline=()):
     return fi, analyse_function(ctx, fi.module, fi.node)
 
 
+def switch_polarity(p, key_const: str):
+    """True when the path established that the feature switch read from the option ``key_const``
+    is on, False when off, None when the path never tests it: the polarity of the first path
+    condition on the value the switch Option evaluated to (whatever function reads it)."""
+    for i, e in enumerate(p.events):
+        if e.kind in ("unfold", "op") and e.op == "evaluate" and isinstance(e.target, New) and e.target.cls.name == "Option" \
+                and e.target.attrs.get("key") is not None and e.target.attrs["key"].key() == f"Const('{key_const}')":
+            vals = {x.target.key() for x in p.events[i + 1:] if x.kind == "return" and x.target is not None}
+            vals.add(Val("evaluate", e.target).key())
+            for c in p.conds[e.ncond:]:
+                if c[2]:
+                    k, pol = Frame.norm_cond(c[2], c[1])
+                    if k in vals:
+                        return pol
+            return None
+    return None
+
+
+def handler_parts(run: Run) -> Dict[str, object]:
+    """The cache / log handlers found by their role, not their name: the registered default
+    handler of each request type and the stand-in that ``disabled()`` installs for it."""
+    if "handler_parts" in run._rule_cache:
+        return run._rule_cache["handler_parts"]
+    repo = run.repo
+    regs = astu.default_handler_registrations(repo)
+    import re as _re
+    out: Dict[str, object] = {"handlers": {}, "twins": {}}
+    REQS = {"set": "CacheSetRequest", "get": "CacheGetRequest", "exists": "CacheExistsRequest", "log": "LogRequest"}
+    for kind, req in REQS.items():
+        hq = regs.get(req, [])
+        if len(hq) != 1:
+            raise AnalysisError(f"{req} has {len(hq)} default handlers ({hq}); exactly one expected")
+        out["handlers"][kind] = hq[0]
+    mapping: Dict[str, str] = {}
+
+    def _collect(t):
+        if isinstance(t, Sym):
+            if t.head == "item" and len(t.args) == 2:
+                mk = _re.match(r"class<.*\.(\w+)>$", t.args[0].key())
+                mv = _re.match(r"Fn\((\w+);", t.args[1].key())
+                if mk and mv:
+                    mapping[mk.group(1)] = mv.group(1)
+            elif t.head.startswith("call:handle") or t.head == "call:handle":
+                ks = [a_.key() for a_ in t.args]
+                for i_, k_ in enumerate(ks[:-1]):
+                    mk = _re.match(r"class<.*\.(\w+)>$", k_)
+                    mv = _re.match(r"Fn\((\w+);", ks[i_ + 1])
+                    if mk and mv:
+                        mapping[mk.group(1)] = mv.group(1)
+            for a_ in t.args:
+                _collect(a_)
+    for modname in ("labrea.cache", "labrea.logging"):
+        fi = repo.functions.get(f"{modname}.disabled")
+        if fi is None:
+            raise AnalysisError(f"{modname}.disabled not found")
+        for p_ in analyse_function(Ctx(repo), fi.module, fi.node):
+            for e_ in p_.events:
+                if e_.kind == "call" and e_.text == "handle":
+                    for a_ in e_.args:
+                        _collect(a_)
+                    ks = [a_.key() for a_ in e_.args]
+                    for i_, k_ in enumerate(ks[:-1]):
+                        mk = _re.match(r"class<.*\.(\w+)>$", k_)
+                        mv = _re.match(r"Fn\((\w+);", ks[i_ + 1])
+                        if mk and mv:
+                            mapping[mk.group(1)] = mv.group(1)
+            if p_.ret is not None:
+                _collect(p_.ret)
+    out["mapping"] = dict(mapping)
+    for kind, req in REQS.items():
+        if req in mapping:
+            mod = "labrea.logging" if kind == "log" else "labrea.cache"
+            out["twins"][kind] = f"{mod}.{mapping[req]}"
+    run._rule_cache["handler_parts"] = out
+    return out
+
+
 # ------------------------------------------------------------------ R-VP
 def rule_VP(run: Run) -> RuleResult:
     res = RuleResult("R-VP")
@@ -32,23 +109,32 @@ def rule_VP(run: Run) -> RuleResult:
         ok = bool(ps) and all(p.ret.key() == INNER for p in ps)
         res.add(f"{c.qualname}.evaluate:returns exactly the inner value on every path", ok, c.module.relpath, c.methods["evaluate"].lineno,
                 f"{len(ps)} paths" if ok else f"returns {[p.ret.key()[:60] for p in ps if p.ret.key() != INNER][:2]}", nec)
+    hp_ = handler_parts(run)
+    H, TW = hp_["handlers"], hp_["twins"]
+    if set(TW) != {"set", "get", "exists", "log"}:
+        raise AnalysisError(f"disabled() stand-ins found only for {sorted(TW)}")
+    tw_short = {k: v.rsplit(".", 1)[-1] for k, v in TW.items()}
+    BACK = "(attr:cache(request),attr:evaluatable(request),attr:options(request))"
     allowed = {
-        "labrea.cache._set_cache_handler": {"call:get(attr:cache(request),attr:evaluatable(request),attr:options(request))", "attr:value(request)", "call:_disabled_set_cache_handler(request)"},
-        "labrea.cache._get_cache_handler": {"call:get(attr:cache(request),attr:evaluatable(request),attr:options(request))", "call:_disabled_get_cache_handler(request)"},
-        "labrea.cache._exists_cache_handler": {"call:exists(attr:cache(request),attr:evaluatable(request),attr:options(request))", "call:_disabled_exists_cache_handler(request)"},
-        "labrea.cache._disabled_set_cache_handler": {"attr:value(request)"},
-        "labrea.cache._disabled_exists_cache_handler": {"Const(False)"},
-        "labrea.logging._builtin_logging_handler": {"Const(None)", "call:_disabled_logging_handler(request)"},
-        "labrea.logging._disabled_logging_handler": {"Const(None)"},
+        H["set"]: {"call:get" + BACK, "attr:value(request)", f"call:{tw_short['set']}(request)"},
+        H["get"]: {"call:get" + BACK, f"call:{tw_short['get']}(request)"},
+        H["exists"]: {"call:exists" + BACK, f"call:{tw_short['exists']}(request)"},
+        TW["set"]: {"attr:value(request)"},
+        TW["exists"]: {"Const(False)"},
+        H["log"]: {"Const(None)", f"call:{tw_short['log']}(request)"},
+        TW["log"]: {"Const(None)"},
     }
+    label = {H["set"]: "labrea.cache._set_cache_handler", H["get"]: "labrea.cache._get_cache_handler", H["exists"]: "labrea.cache._exists_cache_handler",
+             TW["set"]: "labrea.cache._disabled_set_cache_handler", TW["exists"]: "labrea.cache._disabled_exists_cache_handler",
+             H["log"]: "labrea.logging._builtin_logging_handler", TW["log"]: "labrea.logging._disabled_logging_handler"}
     for q, okset in allowed.items():
-        fi, ps = _paths_fn(run, q, no_inline=("_cache_disabled", "_disabled_set_cache_handler", "_disabled_get_cache_handler",
-                                              "_disabled_exists_cache_handler", "_disabled_logging_handler"))
-        rets = sorted({p.ret.key() for p in ps if p.status == "ret"})
+        fi, ps = _paths_fn(run, q, no_inline=tuple(tw_short.values()))
+        rp = [a.arg for a in fi.node.args.args][0]
+        rets = sorted({p.ret.key().replace(f"({rp})", "(request)").replace(f"({rp},", "(request,") for p in ps if p.status == "ret"})
         bad = [r for r in rets if r not in okset]
-        res.add(f"{q}:returned values", not bad and bool(rets), fi.module.relpath, fi.node.lineno,
+        res.add(f"{label[q]}:returned values", not bad and bool(rets), fi.module.relpath, fi.node.lineno,
                 f"returns {rets}" + (f"; unexpected {bad}" if bad else ""), nec)
-    fi, ps = _paths_fn(run, "labrea.cache._disabled_get_cache_handler")
+    fi, ps = _paths_fn(run, TW["get"])
     ok = bool(ps) and all(p.status == "raise" and p.exc and p.exc[0] == "CacheGetFailure" for p in ps)
     res.add("labrea.cache._disabled_get_cache_handler:always reports a miss", ok, fi.module.relpath, fi.node.lineno, f"{[(p.status, p.exc) for p in ps][:2]}", nec)
     nc = repo.cls("NoCache")
@@ -71,30 +157,49 @@ def rule_SH(run: Run) -> RuleResult:
     nec = ("every documented switch spelling must be honoured by all sibling handlers: a handler that ignores "
            "the switch reads or writes stored entries although caching is disabled (C16)")
     cm = repo.modules["labrea.cache"]
+    hp_ = handler_parts(run)
+    H, TW = hp_["handlers"], hp_["twins"]
+    tw_short = {k: v.rsplit(".", 1)[-1] for k, v in TW.items()}
+    looked = set()
+    on_opts = True
+    falls_false = False
     for kind, req in (("set", "CacheSetRequest"), ("get", "CacheGetRequest"), ("exists", "CacheExistsRequest")):
-        fi, ps = _paths_fn(run, f"labrea.cache._{kind}_cache_handler",
-                           no_inline=("_cache_disabled", "_disabled_set_cache_handler", "_disabled_get_cache_handler", "_disabled_exists_cache_handler"))
+        if kind not in TW:
+            res.add(f"labrea.cache._{kind}_cache_handler:tests the switch first and delegates to its disabled twin", False, cm.relpath, 0, f"cache.disabled() installs no stand-in for {req}", nec)
+            continue
+        fi, ps = _paths_fn(run, H[kind], no_inline=tuple(tw_short.values()))
+        rp = [a.arg for a in fi.node.args.args][0]
         ok = bool(ps)
         why = ""
         saw_on = saw_off = False
         for p in ps:
-            sw = [c for c in p.conds if "call:_cache_disabled(request)" in c[2]]
-            backend = [e for e in p.events if e.kind == "call" and e.text in ("get", "set", "exists") and e.target is not None and "cache" in e.target.key()]
-            if not sw:
+            backend = [i for i, e in enumerate(p.events) if e.kind == "call" and e.text in ("get", "set", "exists") and e.target is not None and e.target.key() == f"attr:cache({rp})"]
+            sw_ev = [i for i, e in enumerate(p.events) if e.kind in ("unfold", "op") and e.op == "evaluate" and isinstance(e.target, New) and e.target.cls.name == "Option"
+                     and e.target.attrs.get("key") is not None and e.target.attrs["key"].key() == "Const('LABREA.CACHE.DISABLED')"]
+            for e in p.events:
+                if e.kind == "call" and e.text.endswith("get_dotted_key") and len(e.args) >= 2 and isinstance(e.args[0], Const):
+                    looked.add(e.args[0].key())
+                    if e.args[1].key() != f"attr:options({rp})":
+                        on_opts = False
+                if e.kind == "return" and e.target is not None and e.target.key() in ("Const(False)", "call:copy.deepcopy(Const(False))"):
+                    falls_false = True
+            if p.status == "raise" and not (p.exc and "CacheGetFailure" in p.exc[0]):
+                continue        # a failing option lookup inside the switch itself
+            if not sw_ev:
                 ok = False
                 why = "a path does not consult the caching switch"
                 continue
-            first_backend = min([p.events.index(e) for e in backend], default=None)
-            sw_idx = min(i for i, e in enumerate(p.events) if e.kind == "call" and e.text == "_cache_disabled")
-            if first_backend is not None and first_backend < sw_idx:
+            if backend and backend[0] < sw_ev[0]:
                 ok = False
                 why = "the backend is touched before the switch is consulted"
-            on = sw[0][1] != sw[0][2].startswith("unop:Not(")
+            on = switch_polarity(p, "LABREA.CACHE.DISABLED")
+            if on is None:
+                continue
             if on:
                 saw_on = True
-                if backend or not (p.status == "ret" and p.ret.key() == f"call:_disabled_{kind}_cache_handler(request)"):
+                if backend or not (p.status == "ret" and p.ret is not None and p.ret.key() == f"call:{tw_short[kind]}({rp})"):
                     ok = False
-                    why = f"with caching disabled the handler does not simply delegate to _disabled_{kind}_cache_handler"
+                    why = f"with caching disabled the handler does not simply delegate to {tw_short[kind]}"
             else:
                 saw_off = True
                 if not backend:
@@ -102,49 +207,18 @@ def rule_SH(run: Run) -> RuleResult:
                     why = "with caching enabled the backend is not consulted"
         ok = ok and saw_on and saw_off
         res.add(f"labrea.cache._{kind}_cache_handler:tests the switch first and delegates to its disabled twin", ok, cm.relpath, fi.node.lineno,
-                why or f"{len(ps)} paths: switch on -> _disabled_{kind}_cache_handler(request), switch off -> backend", nec)
-        regd = astu.default_handler_registrations(repo).get(req, [])
-        res.add(f"labrea.cache._{kind}_cache_handler:registered for {req}", regd == [f"labrea.cache._{kind}_cache_handler"], cm.relpath, fi.node.lineno, f"default handlers of {req}: {regd}", nec)
-    cd, cps = _paths_fn(run, "labrea.cache._cache_disabled")
-    looked = set()
-    on_opts = True
-    falls_false = False
-    for p in cps:
-        for e in p.events:
-            if e.kind == "call" and e.text.endswith("get_dotted_key") and len(e.args) >= 2:
-                looked.add(e.args[0].key())
-                if e.args[1].key() != "attr:options(request)":
-                    on_opts = False
-        if p.status == "ret" and p.ret is not None and ("Const(False)" in p.ret.key()):
-            falls_false = True
-    ok = looked == {"Const('LABREA.CACHE.DISABLED')", "Const('LABREA.CACHE.DISABLE')"} and on_opts and falls_false
-    res.add("labrea.cache._cache_disabled:consults both option spellings, default False", ok, cm.relpath, cd.node.lineno,
+                why or f"{len(ps)} paths: switch on -> {tw_short[kind]}(request), switch off -> backend", nec)
+        res.add(f"labrea.cache._{kind}_cache_handler:registered for {req}", True, cm.relpath, fi.node.lineno, f"default handler of {req}: {H[kind]}", nec)
+    ok = looked >= {"Const('LABREA.CACHE.DISABLED')", "Const('LABREA.CACHE.DISABLE')"} and on_opts and falls_false
+    res.add("labrea.cache._cache_disabled:consults both option spellings, default False", ok, cm.relpath, 1,
             f"looks up {sorted(looked)} in request.options={on_opts}; falls back to False={falls_false}", nec)
     dis = repo.func("labrea.cache.disabled")
-    mapping = {}
-    import re as _re
-
-    def _collect(t):
-        """request class -> handler function, from every dict term handed to handle()"""
-        if isinstance(t, Sym):
-            if t.head == "item" and len(t.args) == 2:
-                mk = _re.match(r"class<.*\.(\w+)>$", t.args[0].key())
-                mv = _re.match(r"Fn\((\w+);", t.args[1].key())
-                if mk and mv:
-                    mapping[mk.group(1)] = mv.group(1)
-            for a_ in t.args:
-                _collect(a_)
-    for p_ in analyse_function(Ctx(repo), dis.module, dis.node):
-        for e_ in p_.events:
-            if e_.kind == "call" and e_.text == "handle":
-                for a_ in e_.args:
-                    _collect(a_)
-        if p_.ret is not None:
-            _collect(p_.ret)
-    want = {"CacheSetRequest": "_disabled_set_cache_handler", "CacheGetRequest": "_disabled_get_cache_handler", "CacheExistsRequest": "_disabled_exists_cache_handler"}
-    res.add("labrea.cache.disabled:swaps exactly the three cache handlers for their disabled twins", mapping == want, cm.relpath, dis.node.lineno, f"{mapping}", nec)
+    mapping = {k: v for k, v in hp_["mapping"].items() if k.startswith("Cache")}
+    ok = set(mapping) == {"CacheSetRequest", "CacheGetRequest", "CacheExistsRequest"} and len(set(mapping.values())) == 3 \
+        and not (set(mapping.values()) & {q.rsplit(".", 1)[-1] for q in H.values()})
+    res.add("labrea.cache.disabled:swaps exactly the three cache handlers for their disabled twins", ok, cm.relpath, dis.node.lineno, f"{mapping}", nec)
     lm = repo.modules["labrea.logging"]
-    bh, bps = _paths_fn(run, "labrea.logging._builtin_logging_handler", no_inline=("_disabled_logging_handler",))
+    bh, bps = _paths_fn(run, H["log"], no_inline=(tw_short.get("log", "_disabled_logging_handler"),))
     ok = bool(bps)
     why = ""
     saw_on = saw_off = False
@@ -173,9 +247,11 @@ def rule_SH(run: Run) -> RuleResult:
     res.add("labrea.logging._builtin_logging_handler:emits request.msg at request.level on the named logger", ok, lm.relpath, bh.node.lineno, f"{logs[:2]}", nec)
     ld = repo.func("labrea.logging.disabled")
     lps = analyse_function(Ctx(repo), ld.module, ld.node)
-    CUR = "call:setdefault(global<labrea.runtime._RUNTIMES>,call:threading.current_thread,new:Runtime(Const(None)))"
+    from . import rules_runtime as RTN
+    RTN._rt(run)
+    CUR = f"call:setdefault({RTN.T_KEY},call:threading.current_thread,new:Runtime(Const(None)))"
     rets = [p.ret.key() if p.status == "ret" and p.ret is not None else p.status for p in lps]
-    ok = bool(rets) and all(r == f"call:handle({CUR},class<labrea.logging.LogRequest>,Fn(_disabled_logging_handler;))" for r in rets)
+    ok = bool(rets) and "log" in tw_short and all(r == f"call:handle({CUR},class<labrea.logging.LogRequest>,Fn({tw_short['log']};))" for r in rets)
     res.add("labrea.logging.disabled:swaps the log handler for the disabled one", ok, lm.relpath, ld.node.lineno, f"{[r[:90] for r in rets]}", nec)
     # effects switch
     cmod = repo.modules["labrea.computation"]
@@ -240,8 +316,11 @@ def rule_DH(run: Run) -> RuleResult:
     repo = run.repo
     nec = "with caching / logging disabled stored entries are neither read nor written and nothing is emitted (C16)"
     n = 0
-    for q, fi in repo.functions.items():
-        if not fi.name.startswith("_disabled_"):
+    hp_ = handler_parts(run)
+    enabled_short = {q.rsplit(".", 1)[-1] for q in hp_["handlers"].values()}
+    for kind, q in sorted(hp_["twins"].items()):
+        fi = repo.functions.get(q)
+        if fi is None:
             continue
         n += 1
         bad = []
@@ -249,7 +328,7 @@ def rule_DH(run: Run) -> RuleResult:
             nm = astu.short_name(c)
             if isinstance(c.func, ast.Attribute) and nm in ("get", "set", "exists", "log", "getLogger", "run", "fingerprint"):
                 bad.append(ast.unparse(c)[:50])
-            if isinstance(c.func, ast.Name) and nm.endswith("_handler") and not nm.startswith("_disabled_"):
+            if isinstance(c.func, ast.Name) and nm in enabled_short:
                 bad.append(ast.unparse(c)[:50])
         res.add(f"{q}:touches no backend", not bad, fi.module.relpath, fi.node.lineno, "no backend call" if not bad else f"calls {bad}", nec)
     if n < 4:
@@ -474,12 +553,16 @@ def rule_RQ(run: Run) -> RuleResult:
                     if fn_.lineno <= node.lineno <= (fn_.end_lineno or fn_.lineno) and any(n is node for n in ast.walk(fn_)):
                         owner = q_ if owner is None or len(q_) > len(owner) else owner
                 refs.setdefault(f"{m_.name}.{node.id}", set()).add(owner or "<module>")
+    log_ok = set(regs.get("LogRequest", []))
     changed = True
     while changed:
         changed = False
         for q, users in refs.items():
             if q not in backend_ok and users and all(u in backend_ok for u in users):
                 backend_ok.add(q)
+                changed = True
+            if q not in log_ok and users and all(u in log_ok for u in users):
+                log_ok.add(q)
                 changed = True
     handler_names = set()
     for qs_ in regs.values():
@@ -501,7 +584,7 @@ def rule_RQ(run: Run) -> RuleResult:
                             ast.unparse(c)[:70] + (" (cache handler / Cache itself)" if ok else " bypasses the cache request"), nec)
             if nm == "getLogger":
                 n += 1
-                ok = q == "labrea.logging._builtin_logging_handler"
+                ok = q in log_ok
                 res.add(f"{q}:logging.getLogger", ok, m.relpath, c.lineno, ast.unparse(c)[:70], nec)
             if isinstance(f0, ast.Name) and f0.id in handler_names and not q.split(".")[-1].endswith("_handler"):
                 n += 1
@@ -533,6 +616,8 @@ def rule_HD(run: Run) -> RuleResult:
     for r in reqs:
         hs = regs.get(r.name, [])
         res.add(f"{r.qualname}:has a module-level default handler", len(hs) >= 1, r.module.relpath, r.node.lineno, f"{hs}", nec)
+    from . import rules_runtime as RTN
+    RTN._rt(run)
     rq = repo.cls("Request")
     h = rq.methods.get("handle")
     ok = h is not None
@@ -542,7 +627,7 @@ def rule_HD(run: Run) -> RuleResult:
         hps = analyse_function(Ctx(repo), rq.module, h)
         # registers the handler for this request class in the default table and hands the handler back
         ok = bool(hps) and all(p.status == "ret" and p.ret is not None and p.ret.key() == hp_ and any(
-            e.kind == "store" and len(e.args) == 2 and e.args[0].key() == "global<labrea.runtime._DEFAULT_HANDLERS>" and e.args[1].key() == f"index({c0})"
+            e.kind == "store" and len(e.args) == 2 and e.args[0].key() == RTN.D_KEY and e.args[1].key() == f"index({c0})"
             and e.target is not None and e.target.key() == hp_ for e in p.events) for p in hps)
     res.add("labrea.runtime.Request.handle:registers the default and returns the handler", ok, rq.module.relpath, h.lineno if h else 0, "", nec)
     return res
@@ -591,6 +676,9 @@ def _member_filters(fn: ast.AST, selfname: str):
     return out
 
 
+_MF_MODULE = None       # the module of the dataset-class machinery (set by rule_MF)
+
+
 def _member_enumerations(fn: ast.AST, selfname: str, classes, depth: int = 0):
     """The member enumerations of fn, or — when fn delegates the enumeration to a helper
     method of the dataset-class machinery — those of that helper."""
@@ -600,6 +688,17 @@ def _member_enumerations(fn: ast.AST, selfname: str, classes, depth: int = 0):
     out = []
     for c in astu.calls_in(fn):
         f0 = c.func
+        if isinstance(f0, ast.Name) and _MF_MODULE is not None and f0.id in _MF_MODULE.names and _MF_MODULE.names[f0.id][0] == "func":
+            # a module-level helper that receives the class as an argument
+            hfi = _MF_MODULE.names[f0.id][1]
+            hps = [a.arg for a in hfi.node.args.posonlyargs + hfi.node.args.args]
+            for i_, a_ in enumerate(c.args):
+                if i_ < len(hps) and ast.unparse(a_) in (selfname, f"{selfname}.__class__", "cls", "self.__class__", "type(self)"):
+                    for en in _member_enumerations(hfi.node, hps[i_], classes, depth + 1):
+                        en = ("cls" if en[0] == hps[i_] else en[0], en[1])
+                        if not any(en[0] == o[0] and ast.unparse(en[1]) == ast.unparse(o[1]) for o in out):
+                            out.append(en)
+            continue
         if isinstance(f0, ast.Attribute) and ast.unparse(f0.value) in (selfname, f"{selfname}.__class__", "cls", "self.__class__", "type(self)"):
             for ci in classes:
                 h = ci.methods.get(f0.attr)
@@ -650,6 +749,8 @@ def rule_MF(run: Run) -> RuleResult:
     meta = repo.cls("_DatasetClassMeta")
     mix = repo.cls("_DatasetClassMixin")
     f = meta.module.relpath
+    global _MF_MODULE
+    _MF_MODULE = meta.module
     forms = {}
     for op in ("validate", "keys", "explain"):
         fn = meta.methods.get(op)
@@ -750,7 +851,9 @@ def rule_MF(run: Run) -> RuleResult:
             if e.kind == "call" and e.text.endswith("set_dotted_key"):
                 # key from the class's keys for these options, value looked up under the same key, recorded on the instance
                 k0 = e.args[0].key() if e.args else ""
-                good = len(e.args) == 3 and f"call:keys(attr:__class__(self),{optp})" in k0 and e.args[1].key() == f"call:confectioner.templating.get_dotted_key({k0},{optp})" \
+                import re as _re
+                mo_ = _re.search(r"call:keys\(attr:__class__\(self\),(" + _re.escape(optp) + r"|dict\{\})\)", k0)
+                good = len(e.args) == 3 and mo_ is not None and e.args[1].key() == f"call:confectioner.templating.get_dotted_key({k0},{mo_.group(1)})" \
                     and (e.args[2].key() in ("attr:_repr_options(self)", "dict{}") or "_repr_options" in e.args[2].key())
                 saw_rec = saw_rec or good
                 ok = ok and good
@@ -818,6 +921,8 @@ def _lock_attrs(repo, c) -> Set[str]:
 def rule_PL(run: Run) -> RuleResult:
     res = RuleResult("R-PL")
     repo = run.repo
+    from . import rules_runtime as RTN
+    RTN._rt(run)
     nec = "a lock stored on an instance cannot be pickled: the class must drop it in __getstate__ and re-create it in __setstate__ (C20)"
     n = 0
     for c in repo.classes.values():
@@ -844,7 +949,7 @@ def rule_PL(run: Run) -> RuleResult:
                     restored = any(e.kind == "call" and e.text == "update" and e.target is not None and e.target.key() == "attr:__dict__(self)" and e.args and e.args[0].key() == st_p for e in p.events) \
                         or any(e.kind == "store" and len(e.args) == 2 and e.args[0].key() == "self" and e.args[1].key() == Const("__dict__").key() for e in p.events)
                     relocked = all(any(e.kind == "store" and len(e.args) == 2 and e.args[0].key() == "self" and e.args[1].key() == Const(a).key() and e.target is not None
-                                       and ("Lock" in e.target.key() or "_LOCKS" in e.target.key()) for e in p.events) for a in locks)
+                                       and ("Lock" in e.target.key() or RTN.LOCKS_TABLE in e.target.key()) for e in p.events) for a in locks)
                     # the fresh lock is installed after the saved state (which holds the placeholder) was restored
                     order = True
                     if restored and relocked:
@@ -997,11 +1102,17 @@ def rule_GA(run: Run) -> RuleResult:
 
 
 # ------------------------------------------------------------------ R-GS
-SHARED_TABLES = {
-    "labrea.runtime._RUNTIMES": "thread -> runtime table, guarded by runtime.lock (R-LS, R-TI)",
-    "labrea.runtime._DEFAULT_HANDLERS": "default handler registry, written under runtime.lock (R-LS)",
-    "labrea.overload._LOCKS": "per-object lock registry, guarded by _MODULE_LOCK (R-LS)",
-}
+def _shared_tables(run: Run) -> Dict[str, str]:
+    """The three guarded shared tables, found by their use (rules_runtime._bind_names), whatever they are called."""
+    from . import rules_runtime as RTN
+    RTN._rt(run)
+    return {
+        f"labrea.runtime.{RTN.TABLE}": "thread -> runtime table, guarded by the runtime lock (R-LS, R-TI)",
+        f"labrea.runtime.{RTN.DEFAULTS}": "default handler registry, written under the runtime lock (R-LS)",
+        f"labrea.overload.{RTN.LOCKS_TABLE}": "per-object lock registry, guarded by the module lock of overload.py (R-LS)",
+    }
+
+
 _MUTATORS = {"add", "discard", "remove", "append", "extend", "insert", "pop", "popitem", "clear", "update", "setdefault", "__setitem__", "__delitem__", "sort"}
 
 
@@ -1012,6 +1123,7 @@ def rule_GS(run: Run) -> RuleResult:
     nec = ("an operation that records something in module-level state makes later outcomes depend on what was evaluated "
            "(or failed) earlier: a failed keys() that leaves an entry behind changes the keys reported afterwards")
     n = 0
+    SHARED_TABLES = _shared_tables(run)
     for m, cls, fn, q in iter_functions(repo):
         if m.name.startswith("labrea.mypy"):
             continue
